@@ -456,9 +456,13 @@ class World:
         self.accept_q.append((ks, info['addr']))
         self.activity += 1
 
-    def on_connect(self, addr: Any, source_address: Any) -> socket.socket:
+    def on_connect(self, addr: Any, source_address: Any, via: str = 'new_socket_connection', family: Any = None) -> socket.socket:
         idx = len(self.connect_log)
         entry = {'addr': (addr[0], addr[1]), 'source_address': source_address, 'iter': self.iter, 'result': 'ok'}
+        if via != 'new_socket_connection':
+            entry['via'] = via
+            entry['raw_addr'] = tuple(addr)
+            entry['family'] = None if family is None else int(family)
         self.connect_log.append(entry)
         self.activity += 1
         kind = self.connect_plan.get(idx)
@@ -702,3 +706,85 @@ def _run_threaded(self: World, client_name: str) -> World:
 
 
 World.run_threaded = _run_threaded     # type: ignore[attr-defined]
+
+
+# ---------------------------------------------------------------------------------------------
+# optional: run the REAL proxy.common.utils.new_socket_connection with its `socket` module replaced by a shim,
+# so that the literal-vs-name decision, the address family and the address tuple handed to the OS are observed.
+
+_HOSTNAME_OK = __import__('re').compile(r'[A-Za-z0-9._\-\u0080-\U0010ffff]+')
+
+
+def _os_would_refuse(world: 'World', addr: Any, via: str, family: Any) -> None:
+    """Be as strict as the operating system: ports outside 0..65535 raise OverflowError before anything touches the
+    network, a host string that is not a syntactically possible name cannot be resolved.  Recorded, then raised."""
+    host, port = addr[0], addr[1]
+    reason = None
+    if not isinstance(port, int) or not 0 <= port <= 65535:
+        reason = OverflowError('bind(): port must be 0-65535.')
+    elif via == 'socket.create_connection' and not _HOSTNAME_OK.fullmatch(host or ''):
+        reason = socket.gaierror(socket.EAI_NONAME, 'Name or service not known')
+    if reason is not None:
+        world.connect_log.append({'addr': (host, port), 'raw_addr': tuple(addr), 'via': via, 'family': None if family is None else int(family),
+                                  'iter': world.iter, 'result': 'os-refused:' + type(reason).__name__, 'source_address': None})
+        raise reason
+
+
+class _PendingSock:
+    """What socket.socket(family, ...) returns inside new_socket_connection: connect() swaps in the harness pair."""
+
+    def __init__(self, world: 'World', family: Any) -> None:
+        self._world = world
+        self._family = family
+        self._real: Optional[socket.socket] = None
+
+    def settimeout(self, t: Any) -> None:
+        pass
+
+    def connect(self, addr: Any) -> None:
+        _os_would_refuse(self._world, addr, 'socket.connect', self._family)
+        self._real = self._world.on_connect(addr, None, via='socket.connect', family=self._family)
+
+    def close(self) -> None:
+        if self._real is not None:
+            self._real.close()
+
+    def __getattr__(self, name: str) -> Any:
+        if self._real is None:
+            raise AttributeError(name)
+        return getattr(self._real, name)
+
+
+class SocketModuleShim:
+    def __init__(self) -> None:
+        self._socket = socket
+
+    def __getattr__(self, name: str) -> Any:
+        return getattr(self._socket, name)
+
+    def socket(self, family: Any = socket.AF_INET, type: Any = socket.SOCK_STREAM, proto: int = 0, fileno: Any = None) -> Any:
+        if CURRENT is None or fileno is not None:
+            return self._socket.socket(family, type, proto, fileno)
+        return _PendingSock(CURRENT, family)
+
+    def create_connection(self, addr: Any, timeout: Any = None, source_address: Any = None, **kw: Any) -> Any:
+        if CURRENT is None:
+            raise ConnectionRefusedError(errno.ECONNREFUSED, 'no harness world')
+        _os_would_refuse(CURRENT, addr, 'socket.create_connection', None)
+        return CURRENT.on_connect(addr, source_address, via='socket.create_connection')
+
+
+def install_real_connect() -> None:
+    """C14: route TcpServerConnection.connect through the real new_socket_connection (observed via the shim)."""
+    install()
+    import proxy.common.utils as U
+    import proxy.core.connection.server as srv
+    if not hasattr(U, 'new_socket_connection') or not hasattr(U, 'socket'):
+        raise HarnessSeamMissing('proxy.common.utils.new_socket_connection/socket')
+    if not isinstance(U.socket, SocketModuleShim):
+        U.socket = SocketModuleShim()     # type: ignore[assignment]
+
+    def _real(addr: Any, timeout: float = 10.0, source_address: Any = None) -> Any:
+        conn = U.new_socket_connection(addr, timeout, source_address)
+        return conn._real if isinstance(conn, _PendingSock) else conn
+    srv.new_socket_connection = _real
